@@ -101,6 +101,17 @@ def check(run, model, tier):
         snap = True
     if isinstance(src, ast.Call) and isinstance(src.func, ast.Attribute) and src.func.attr == 'copy' and dotted(src.func.value) == track:
         snap = True
+    if isinstance(it, ast.Name) and isinstance(src, ast.List) and not src.elts:
+        # an empty list filled element by element from the tracking deque before the cancel loop starts: the same copy, spelled as a loop
+        fills = [x for x in walk_shallow(stop.node) if isinstance(x, ast.For) and x is not lh.stmt and dotted(x.iter) == track and isinstance(x.target, ast.Name) and not x.orelse
+                 and len(x.body) == 1 and isinstance(x.body[0], ast.Expr) and isinstance(x.body[0].value, ast.Call) and isinstance(x.body[0].value.func, ast.Attribute)
+                 and x.body[0].value.func.attr == 'append' and isinstance(x.body[0].value.func.value, ast.Name) and x.body[0].value.func.value.id == it.id
+                 and len(x.body[0].value.args) == 1 and isinstance(x.body[0].value.args[0], ast.Name) and x.body[0].value.args[0].id == x.target.id]
+        others = [x for x in shallow_calls(stop.node) if isinstance(x.func, ast.Attribute) and isinstance(x.func.value, ast.Name) and x.func.value.id == it.id
+                  and not any(x is fl_.body[0].value for fl_ in fills)]
+        fnodes = [m_ for m_ in g.nodes if m_.kind == 'for' and any(m_.stmt is fl_ for fl_ in fills)]
+        if len(fills) == 1 and not others and fnodes and g.exists_path(fnodes[0], lh) and not g.exists_path(lh, fnodes[0]):
+            snap = True
     live = dotted(src) == track
     run.inst('SNAPSHOT.cancel', stop, 'cancel-all iterates a snapshot of the tracking deque', snap,
              '' if snap else ('the cancel-all loop iterates %s: cancel_events pops and rotates that deque while it is being iterated '
@@ -171,6 +182,11 @@ def check(run, model, tier):
         if path.startswith('<'):
             # locals holding tracked records: record.task_run_event.clear()
             if 'task_run_event' in path or path in ('<registered-callback>', '<state-handler>'):
+                continue
+            # a container created in stop() itself (a literal bound to a local there) is private to the call
+            lname = path[1:].split('>')[0]
+            ldefs = [d_ for d_ in local_defs(stop.node).get(lname, []) if isinstance(d_, ast.AST)]
+            if ldefs and all(isinstance(d_, (ast.List, ast.Dict, ast.Set, ast.ListComp)) or (isinstance(d_, ast.Call) and norm(d_.func) in ('list', 'dict', 'set', 'deque')) for d_ in ldefs):
                 continue
             bad.append('%s (%s, %s)' % (path, how, org))
         elif not any(path == a or path.startswith(a + '.') for a in allowed):
